@@ -203,7 +203,23 @@ func perturb(r *telemetry.Report, ucfg *telemetry.UploadConfig) (*telemetry.Repo
 		}
 		return Pick(rnd, c.Programs)
 	}
-	switch rnd.Intn(12) {
+	switch rnd.Intn(13) {
+	case 12:
+		// the chart name of a configured bucketed counter, without bucket
+		p := pickProg()
+		var prefixes []string
+		for _, pc := range ucfg.Programs {
+			for _, cc := range pc.Counters {
+				if i := strings.Index(cc.Name, ":"); i >= 0 {
+					prefixes = append(prefixes, cc.Name[:i])
+				}
+			}
+		}
+		if len(prefixes) == 0 {
+			prefixes = []string{"chart"}
+		}
+		p.Counters[Pick(rnd, prefixes)] = 1
+		return c, "chart-prefix"
 	case 0:
 		return c, "none"
 	case 1:
